@@ -17,7 +17,7 @@ From FGV Require Import Base.Util Base.Bond Base.NX Base.NXFacts Model.Permute M
                         Model.FGTree Model.FGDefaultCfg Model.Query
                         Spec.Embedding Spec.FGCheck Spec.FGSpec Spec.QuerySpec
                         Spec.EmbSearch Proofs.FGDefaultTree Proofs.QueryModelFacts Proofs.QueryProofs
-                        Proofs.EmbSearchProofs Proofs.QueryCheckProofs Proofs.DescendantWitness.
+                        Proofs.EmbSearchProofs Proofs.QueryCheckProofs Proofs.DescendantWitness Proofs.QueryClosed.
 
 (* C05 (justified / ids / child clause / covering), for any configuration list whose patterns and
    anti-patterns are non-empty, well-formed and connected (cfg_ok), any molecule that is a
@@ -84,6 +84,20 @@ Theorem C05_descendant_refuted :
        (fgconfig_init "acyl" "RC=O" wit_RCO (Some [1]%Z) [] None ["R"%string]) 2 = false.
 Proof. exact descendant_witness. Qed.
 
+(* the input class of the known finding KF-C05-descendant is decided by the kernel
+   (kf_descendant_classb, Spec/QuerySpec.v): the witness configuration is inside (in both forms),
+   the default configuration is outside *)
+Theorem C05_witness_in_finding_class :
+  match build_config_tree_from_list default_mapper wit_cfgs with
+  | Good tr => partial_group_atoms_classb (Some "R"%string) true tr && path_open_classb (Some "R"%string) true tr
+  | Bad _ => false
+  end = true.
+Proof. exact witness_in_class. Qed.
+
+Theorem C05_default_outside_finding_class :
+  kf_descendant_classb (Some "R"%string) true default_tree_val = false.
+Proof. exact default_outside_class. Qed.
+
 (* the single group decision against the declarative notions *)
 Theorem C05_is_functional_group_true : forall w ic,
   MatcherComplete w ic -> MatcherSound w ic ->
@@ -99,6 +113,44 @@ Theorem C05_is_functional_group_false : forall w ic,
   forall idx, is_functional_group (mk_mapper w ic []) G a c (Some mx) = Good (false, idx) ->
   ~ Witnessed w ic G c a.
 Proof. exact ifg_false_sem. Qed.
+
+(** * Premise-free forms
+
+    The five premises are theorems of the merged development (Proofs/QueryClosed.v: matcher_complete =
+    C03, matcher_sound = C04_sound, hyd_wf = C12_wf, hyd_fresh = C12_fresh, hyd_syms from
+    C12_preserve + C12_new_nodes), so the C05 theorems hold outright, for every wildcard / ignore_case
+    setting of a mapper without can_map_to_nothing. *)
+Theorem C05_premises : forall w ic,
+  MatcherComplete w ic /\ MatcherSound w ic /\ HydWf /\ HydFresh /\ HydSyms.
+Proof. exact (fun w ic => conj (matcher_complete w ic) (conj (matcher_sound w ic) (conj hyd_wf (conj hyd_fresh hyd_syms)))). Qed.
+
+Theorem C05_justified_closed : forall w ic cfgs req_h g r,
+  wfb g = true -> has_syms g -> (forall c, In c cfgs -> cfg_ok c) ->
+  query (mk_mapper w ic []) cfgs req_h g = Good r ->
+  exists tr, build_config_tree_from_list (mk_mapper w ic []) cfgs = Good tr /\
+             (forall i nd, nth_error (t_nodes tr) i = Some nd -> In (n_cfg nd) cfgs) /\
+             C05_statement w ic tr req_h g r.
+Proof. exact query_justified_configs_closed. Qed.
+
+Theorem C05_justified_tree_closed : forall w ic tr req_h g r,
+  wfb g = true -> has_syms g ->
+  (forall i nd, nth_error (t_nodes tr) i = Some nd -> cfg_ok (n_cfg nd)) ->
+  get_functional_groups_with (mk_mapper w ic []) tr req_h g = Good r ->
+  C05_statement w ic tr req_h g r.
+Proof. exact query_justified_closed. Qed.
+
+Theorem C05_is_functional_group_true_closed : forall w ic G a c mx,
+  wfb G = true -> has_syms G -> cfg_ok c -> (a <= mx)%Z ->
+  forall idx, is_functional_group (mk_mapper w ic []) G a c (Some mx) = Good (true, idx) ->
+  PatternOnWith w ic G mx c a idx /\ ~ AntiOn w ic G c a /\ StronglySorted Z.lt idx /\ In a idx /\
+  (forall x, In x idx -> In x (nodes G) /\ (x <= mx)%Z).
+Proof. exact ifg_true_closed. Qed.
+
+Theorem C05_is_functional_group_false_closed : forall w ic G a c mx,
+  wfb G = true -> has_syms G -> cfg_ok c -> (a <= mx)%Z ->
+  forall idx, is_functional_group (mk_mapper w ic []) G a c (Some mx) = Good (false, idx) ->
+  ~ Witnessed w ic G c a.
+Proof. exact ifg_false_closed. Qed.
 
 (** * The checker run on every implementation output *)
 
@@ -165,8 +217,15 @@ Print Assumptions C05_justified.
 Print Assumptions C05_justified_tree.
 Print Assumptions C05_descendant.
 Print Assumptions C05_descendant_refuted.
+Print Assumptions C05_witness_in_finding_class.
+Print Assumptions C05_default_outside_finding_class.
 Print Assumptions C05_is_functional_group_true.
 Print Assumptions C05_is_functional_group_false.
+Print Assumptions C05_premises.
+Print Assumptions C05_justified_closed.
+Print Assumptions C05_justified_tree_closed.
+Print Assumptions C05_is_functional_group_true_closed.
+Print Assumptions C05_is_functional_group_false_closed.
 Print Assumptions C05_reference_exact.
 Print Assumptions C05_checker_sound.
 Print Assumptions C05_default_tree_cached.
